@@ -148,6 +148,26 @@ class Stacker(Transformer):
                 "Data to be transformed has different coordinates than the data used to fit."
             )
 
+    def _align_transform_feature_coords(self, X: Data) -> Data:
+        """Bring feature coordinates that are a pure re-ordering of the fitted ones into the fitted order."""
+        for dim in self.dims_mapping[self.feature_name]:
+            fitted = self.coords_in[dim]
+            given = X.coords[dim]
+            if given.equals(fitted) or given.size != fitted.size:
+                continue
+            idx_fitted, idx_given = fitted.to_index(), given.to_index()
+            if isinstance(idx_fitted, pd.MultiIndex) or isinstance(
+                idx_given, pd.MultiIndex
+            ):
+                continue
+            if (
+                idx_fitted.is_unique
+                and idx_given.is_unique
+                and idx_given.isin(idx_fitted).all()
+            ):
+                X = X.sel({dim: fitted.values})
+        return X
+
     def _reorder_dims(self, X: DataVarBound) -> DataVarBound:
         """Reorder dimensions to original order; catch ('mode') dimensions via ellipsis"""
         order_input_dims = [
@@ -431,6 +451,10 @@ class Stacker(Transformer):
         """
         # Test whether sample and feature dimensions are present in data array
         self._validate_transform_dimensions(X)
+
+        # Feature coordinates holding the fitted labels in another element order
+        # (e.g. a reconstruction, which comes back sorted) are matched by label
+        X = self._align_transform_feature_coords(X)
 
         # Check if data to be transformed has the same feature coordinates as the data used to fit the stacker
         self._validate_transform_feature_coords(X)
